@@ -84,6 +84,10 @@ func c09Run(s *c09Scn, segName string) verdict {
 
 	if s.Tail == "nl" {
 		hello += "\n"
+
+		if s.idx%2 == 0 {
+			hello += "\n" // an empty line behind the delimiter: two line feeds
+		}
 	}
 
 	pref := s.Pref
